@@ -186,3 +186,15 @@ let () =
     want_log := true;
     let r = (Hashtbl.find handlers "xr") args in
     want_log := false; r)
+
+let () =
+  register "bzdec" (fun args -> match args with
+    | [hex] ->
+      let r = bzip2_decode (bytes_of_hex hex) in
+      (match r.bz_err with
+       | None -> Printf.sprintf "nil %s %d" (hex_of_bytes r.bz_out) (int_of_n r.bz_used)
+       | Some e -> Printf.sprintf "%s %s" (err_name e) (hex_of_bytes r.bz_out))
+    | _ -> "badargs");
+  register "bzenc" (fun args -> match args with
+    | [lvl; hex] -> hex_of_bytes (bzip2_encode (n_of_int (int_of_string lvl)) (bytes_of_hex hex))
+    | _ -> "badargs")
